@@ -24,7 +24,7 @@ TIERS = {
     "quick": {"runs": 3500, "max_wall": 240, "minimise_s": 25, "chunk": 100},
     "thorough": {"runs": 150000, "max_wall": 3000, "minimise_s": 60, "chunk": 500},
 }
-FAULT_KINDS = ["read error", "user disconnect", "stop", "read error + reconnect", "peer close (tcp)", "peer reset (tcp)"]
+FAULT_KINDS = ["read error", "user disconnect", "stop", "read error + reconnect", "peer close (tcp)", "peer reset (tcp)", "slow sendall (send buffer nearly full, tcp)"]
 REAL = ["mysensors.transport", "mysensors.task (SyncTasks._poll_queue)", "mysensors.gateway_serial.sync_connect", "mysensors.gateway_tcp (TCPTransport, sync_connect)",
         "serial.threaded.ReaderThread", "handlers for the commands"]
 STUBS = ["thread scheduling (baton + sys.settrace line pre-emption)", "threading.Lock/Event (SimLock/SimEvent)", "serial port / socket / select", "clock"]
@@ -69,7 +69,8 @@ def gen(rng, tier, index):
     return {"cfg": {"flavour": flavour, "version": rng.choice(["1.4", "2.0", "2.2"]) if scenario != "S" else rng.choice(["2.0", "2.1", "2.2"]), "scenario": scenario,
                     "event": rng.choice(events) if scenario == "A" else "none", "n_cmds": rng.randint(1, 6),
                     "producers": rng.randint(2, 4) if scenario in ("B", "S") else 1, "gaps": [rng.choice([0, 0, 0.005, 0.02, 0.03]) for _ in range(8)],
-                    "event_delay": rng.choice([0, 0, 0.001, 0.01, 0.02, 0.04]), "sched": sched}}
+                    "event_delay": rng.choice([0, 0, 0.001, 0.01, 0.02, 0.0205, 0.04]), "sched": sched,
+                    "slow_send": flavour == "tcp" and rng.random() < 0.4}}
 
 
 def _vio(cls, detail, **sig):
@@ -86,6 +87,7 @@ def run(case):
     try:
         try:
             gateway = world.build()
+            world.device.slow_send = bool(cfg.get("slow_send"))
             rec = RecordingDeque()
             gateway.tasks.queue = rec
             world.start()
@@ -158,7 +160,12 @@ def run(case):
                 if text.startswith("0;255;3;0;2;"):
                     continue
                 if not (text.endswith("\n") and text.count("\n") == 1):
-                    violations.append(_vio("partial-write", {"data": text, "conn": conn_id}))
+                    if cfg["event"] in ("read_error", "read_error_reconnect", "peer_reset", "peer_eof") and conn_id == conn0.conn_id:
+                        # the link itself failed under the write: a torn command on the dead link is what a
+                        # write error legitimately leaves behind
+                        probes["partial_write_on_failed_link"] = 1
+                    else:
+                        violations.append(_vio("partial-write", {"data": text, "conn": conn_id, "event": cfg["event"]}, event=cfg["event"]))
                     continue
                 payload = text[:-1].split(";", 5)[-1]
                 if payload not in tagset and payload != "probe":
